@@ -106,10 +106,12 @@ def run_check(prop, tier='quick', seed=0, jobs=None, verbose=False):
         results = pool.map(_work, [(k, seed, timeout_ms, known) for k in keys], chunksize=1)
     # an obligation left undecided is re-tried once with another seed and twice the time before anything is
     # concluded from it (unstable queries must not turn into alarms)
-    retry = [r['key'] for r in results if r['status'] == 'ok' and any(o['status'] == 'unknown' for o in r['obligations'])]
-    if retry:
+    for rnd, (dseed, mult) in enumerate(((101, 2), (202, 4))):
+        retry = [r['key'] for r in results if r['status'] == 'ok' and any(o['status'] == 'unknown' for o in r['obligations'])]
+        if not retry:
+            break
         with mp.Pool(min(jobs, len(retry)), maxtasksperchild=1) as pool:
-            again = pool.map(_work, [(k, seed + 101, timeout_ms * 2, known) for k in retry], chunksize=1)
+            again = pool.map(_work, [(k, seed + dseed, timeout_ms * mult, known) for k in retry], chunksize=1)
         byk = {r['key']: r for r in again}
         for r in results:
             a = byk.get(r['key'])
@@ -121,13 +123,17 @@ def run_check(prop, tier='quick', seed=0, jobs=None, verbose=False):
             for o in r['obligations']:
                 if o['status'] == 'unknown' and st2.get(o['name']) and all(x == 'discharged' for x in st2[o['name']]):
                     o['status'] = 'discharged'
-                    o['detail'] = (o['detail'] + ' (discharged on retry with seed+101, 2x time)').strip()
+                    o['detail'] = (o['detail'] + ' (discharged on retry with seed+%d, %dx time)' % (dseed, mult)).strip()
     return finish(prop, tier, seed, results, known, time.time() - t0, verbose)
 
 
 def finish(prop, tier, seed, results, known, wall, verbose):
     baseline = load_baseline()
+    base_p = baseline.get(prop) or {}
+    if isinstance(base_p, list):
+        base_p = {n: [] for n in base_p}
     seen_names = set()
+    seen_vc = {}
     viol = []
     undecided = []
     known_hits = []
@@ -152,6 +158,7 @@ def finish(prop, tier, seed, results, known, wall, verbose):
             undecided.append('%s: zero obligations generated for %s (vacuous)' % (r['key'], prop))
         for o in mine:
             seen_names.add(o['name'])
+            seen_vc.setdefault(o['name'], set()).add(o.get('vc', 0))
             n_obl += 1
             per_kind[o['kind']] = per_kind.get(o['kind'], 0) + 1
             if o['status'] == 'discharged':
@@ -167,10 +174,15 @@ def finish(prop, tier, seed, results, known, wall, verbose):
                 o = dict(o)
                 o['detail'] = 'candidate counterexample confirmed by native replay (%s)' % o['detail']
                 viol.append(o)
-            elif o['name'] in baseline.get(prop, ()) :
-                # an obligation that is discharged on the pinned tree (contracts/baseline_obligations.json) is no
-                # longer discharged: reported as a violation with the solver's reason (the guidance's minimum
-                # criterion); the replay decides whether a failing input is known
+            elif o['name'] in base_p and o.get('vc') in base_p[o['name']]:
+                # the very same verification condition (equal fingerprint) that is discharged on the pinned tree: the code
+                # this obligation depends on has not changed, the solver just did not finish this time
+                undecided.append('%s: %s on a verification condition identical to the pinned tree (solver instability) %s'
+                                 % (o['name'], o['status'], o['detail']))
+            elif o['name'] in base_p:
+                # an obligation that is discharged on the pinned tree (contracts/baseline_obligations.json) has a different
+                # verification condition now and is no longer discharged: reported as a violation with the solver's reason
+                # (the guidance's minimum criterion); the replay decides whether a failing input is known
                 o = dict(o)
                 o['detail'] = 'regressed: discharged on the pinned tree, now %s (%s)' % (o['status'], o['detail'])
                 viol.append(o)
@@ -192,6 +204,8 @@ def finish(prop, tier, seed, results, known, wall, verbose):
             'undecided': undecided,
             'known_findings_hit': [o['name'] for o in known_hits],
             'source_hash': astdb.source_hash(),
+            'vcs_identical_to_pinned_tree': sum(1 for n, vs in seen_vc.items() for v in vs if v in (base_p.get(n) or ())),
+            'vcs_total_distinct': sum(len(vs) for vs in seen_vc.values()),
         },
         'assumptions': sorted(assumed) + trusted_contracts(prop),
         'wall_s': round(wall, 2),
@@ -237,7 +251,7 @@ def finish(prop, tier, seed, results, known, wall, verbose):
         code = 2
         for u in undecided:
             print('UNDECIDED: ' + u)
-    exp = baseline.get(prop)
+    exp = base_p if prop in baseline else None
     if exp is not None and code == 0:
         missing = sorted(set(exp) - seen_names)
         if len(missing) > 0 and os.environ.get('VERIF_WRITE_BASELINE') != '1':
@@ -247,12 +261,13 @@ def finish(prop, tier, seed, results, known, wall, verbose):
             for mname in missing[:10]:
                 print('UNDECIDED: obligation of the baseline was not generated: ' + mname)
     if os.environ.get('VERIF_WRITE_BASELINE') == '1' and code == 0:
-        baseline[prop] = sorted(seen_names)
+        baseline[prop] = {n: sorted(seen_vc[n]) for n in sorted(seen_names)}
         with open(os.path.join(VERIF, 'contracts', 'baseline_obligations.json'), 'w') as f:
             json.dump(baseline, f, indent=0, sort_keys=True)
-    os.makedirs(os.path.join(VERIF, 'evidence'), exist_ok=True)
+    OUT = os.environ.get('VERIF_OUT', VERIF)    # evidence/replays of runs against a scratch tree (tools/run_seeded.py) go elsewhere
+    os.makedirs(os.path.join(OUT, 'evidence'), exist_ok=True)
     if prop != 'ALL':
-        with open(os.path.join(VERIF, 'evidence', prop + '.json'), 'w') as f:
+        with open(os.path.join(OUT, 'evidence', prop + '.json'), 'w') as f:
             json.dump(ev, f, indent=1)
     if verbose or code != 0:
         for f in funcs:
